@@ -124,6 +124,25 @@ def alphabet_of(fc, fe, with_seeks):
     return mc_module.alphabet
 
 
+def reader_abs_proof(wd):
+    import shutil
+    import subprocess
+    pd = os.path.join(wd, "tlaps")
+    shutil.rmtree(pd, ignore_errors=True)
+    os.makedirs(pd)
+    for m in ("ReaderAbs.tla", "ReaderAbsProofs.tla"):
+        shutil.copy(os.path.join(SPEC, m), pd)
+    try:
+        p = subprocess.run(["tlapm", "--nofp", "--threads", "4", "ReaderAbsProofs.tla"], cwd=pd, capture_output=True, text=True, timeout=900)
+    except (subprocess.TimeoutExpired, FileNotFoundError) as e:
+        raise ToolError("tlapm did not finish: %s" % e)
+    m = re.search(r"All (\d+) obligations proved", p.stdout + p.stderr)
+    if not m:
+        sys.stderr.write((p.stdout + p.stderr)[-2000:])
+        raise ToolError("ReaderAbsProofs.tla: unproved obligations")
+    return {"module": "ReaderAbsProofs", "theorem": "ASpec(T, K) => [](InRange /\\ EosOnlyAtEnd) for every T in Nat", "obligations_proved": int(m.group(1)), "engine": "tlapm (SMT, PTL)"}
+
+
 def run(pid):
     t0 = time.time()
     t = tier()
@@ -135,6 +154,12 @@ def run(pid):
     states = trans = 0
     samples = []
     stats = dict(model_configs=0, generated_sequences=0, runs=0, events=0, drift=0, impl_steps_checked=0)
+
+    # ---- (A) for every stream length: the TLA+ proof system checks ReaderAbsProofs.tla (the position stays inside the stream, end of
+    # stream only at the end, under every behaviour of ReaderAbs) - TLC explores ReaderAbs only for small totals.  A statement about the
+    # specification alone: a failure is a tool error, never a violation.
+    proof = reader_abs_proof(wd)
+    log("[%s] TLAPS: ReaderAbsProofs.tla, %s obligations proved (unbounded total)" % (pid, proof["obligations_proved"]))
 
     # ---- 0. non-vacuity of the model: each defect of the pinned tree re-enabled must break refinement
     fcA = file_cfgs("quick")[0]
@@ -356,6 +381,7 @@ def run(pid):
         "spec_drift_notes": stats["drift"],
         "nonvacuity_defect_models_refuted": len(nv),
         "known_findings_hit": {k: n for k, (kk, n) in v.known_hits.items()},
+        "unbounded_proof": proof,
     }
     write_evidence(pid, "model_checking", cov, time.time() - t0, len(v.violations),
                    ["TLC/SANY and the CommunityModules Json/IOUtils overrides", "harness projection (occurrence set of returned data; cross-checked by TLC on small files)",
